@@ -368,7 +368,49 @@ Definition apply_pred (p : pred) (s : sval) (positive : bool) : list sval :=
 (* ------------------------------------------------------------------ *)
 (* concrete constraints (stacked_scopes.Constraint) on the one variable *)
 
+(* the class a TypedValue-like value carries in `.typ` *)
+Definition nominal_cls (b : bval) : cls :=
+  match b with
+  | VTyped c => c
+  | VTuple _ => CTuple
+  | VGen g => gen_cls g
+  | _ => CObject
+  end.
+
+(* ConstraintType.is_instance (assert_is_instance): real isinstance / issubclass, no promotion *)
+Definition apply_isinstance (c : cls) (positive : bool) (s : sval) : list sval :=
+  match sbase s with
+  | VAny => if positive then [plain (VTyped c)] else [plain VAny]
+  | VKnown o => if Bool.eqb (isinst o c) positive then [s] else []
+  | VSub t => if Bool.eqb (isinst (OClass t) c) positive then [s] else []
+  | b =>
+      let t := nominal_cls b in
+      if positive then (if sub t c then [s] else if sub c t then [plain (VTyped c)] else [])
+      else (if sub t c then [] else [s])
+  end.
+
+(* ConstraintType.is_value (assert_is / assert_is_not) *)
+Definition apply_isvalue (l : obj) (positive : bool) (s : sval) : list sval :=
+  if positive then
+    match sbase s with
+    | VAny => [plain (VKnown l)]
+    | VKnown o => if obj_eqb o l then [s] else []
+    | VSub t => match l with
+                | OClass k => if sub k t then [plain (VKnown l)] else []
+                | _ => []
+                end
+    | b => if isinst l (nominal_cls b) then [plain (VKnown l)] else []
+    end
+  else
+    match sbase s with
+    | VKnown o => if obj_eqb o l then [] else [s]
+    | _ => [s]
+    end.
+
 Inductive constr :=
+| KIsInstance (c : cls) (positive : bool)
+| KIsValue (l : obj) (positive : bool)
+| KAddAnnot (name : N) (positive : bool)      (* add_annotation (HasAttrGuard): membership unchanged *)
 | KTruthy (positive : bool)
 | KValueObject (t : value) (positive : bool)   (* is_value_object: TypeGuard *)
 | KPred (p : pred) (positive : bool)
@@ -377,6 +419,9 @@ Inductive constr :=
 
 Fixpoint apply_constr (k : constr) (s : sval) {struct k} : list sval :=
   match k with
+  | KIsInstance c positive => apply_isinstance c positive s
+  | KIsValue l positive => apply_isvalue l positive s
+  | KAddAnnot name positive => if positive then [annotate s [HasAttrExt name]] else [s]
   | KTruthy positive =>
       let b := boolab_of_b (sbase s) in
       if positive then (if is_safely_false b then [] else [s])
@@ -422,6 +467,9 @@ Fixpoint apply_acon (a : acon) : list constr :=
 
 Definition flip (k : constr) : constr :=
   match k with
+  | KIsInstance c p => KIsInstance c (negb p)
+  | KIsValue l p => KIsValue l (negb p)
+  | KAddAnnot n p => KAddAnnot n (negb p)
   | KTruthy p => KTruthy (negb p)
   | KValueObject t p => KValueObject t (negb p)
   | KPred q p => KPred q (negb p)
@@ -488,6 +536,9 @@ Inductive cond :=
 | CMapIs (po : bool)                        (* mapping pattern, part 1: x is a Mapping *)
 | CMapKeys (kps : list (elt * epat))        (* mapping pattern, part 2: keys present and value subpatterns *)
 | CPAnd (a b : cond)                        (* conjunction of the parts of one pattern (in source order) *)
+| CAssertInst (c : cls)                     (* the statement assert_is_instance(x, c) went through *)
+| CAssertIs (l : obj)                       (* assert_is(x, l) went through (assert_is_not: CNot) *)
+| CHasAttr (name : N) (b : bool)            (* hasattr(x, "name") (run-time value b) *)
 | CNot (c : cond)
 | CAnd (a b : cond)
 | COr (a b : cond).
@@ -523,6 +574,9 @@ Fixpoint cond_acon (c : cond) : acon :=
   | CMapIs po => ALeaf (KPred (PIsAssignable [VGen GMapPat] po) true)
   | CMapKeys _ => ANull
   | CPAnd a b => AAnd (cond_acon a) (cond_acon b)
+  | CAssertInst c => ALeaf (KIsInstance c true)
+  | CAssertIs l => ALeaf (KIsValue l true)
+  | CHasAttr n _ => ALeaf (KAddAnnot n true)
   | CNot c => invert (cond_acon c)
   | CAnd a b => AAnd (cond_acon b) (cond_acon a)   (* AndConstraint.make(reversed(...)) *)
   | COr a b => AOr (cond_acon a) (cond_acon b)
@@ -552,6 +606,9 @@ Fixpoint tested (c : cond) : value :=
   | CMapIs _ => [plain (VGen GMapPat)]
   | CMapKeys _ => []
   | CPAnd a b => tested a ++ tested b
+  | CAssertInst c => [plain (VTyped c)]
+  | CAssertIs l => [plain (VKnown l)]
+  | CHasAttr _ _ => []
   | CNot c => tested c
   | CAnd a b => tested a ++ tested b
   | COr a b => tested a ++ tested b
@@ -606,6 +663,9 @@ Fixpoint holds (c : cond) (o : obj) : option bool :=
       | Some true => holds b o
       | r => r
       end
+  | CAssertInst c => Some (isinst o c)
+  | CAssertIs l => Some (obj_eqb o l)
+  | CHasAttr _ b => Some b
   | CNot c => option_map negb (holds c o)
   | CAnd a b =>
       match holds a o with
